@@ -69,7 +69,11 @@ partial def runLin (dir : String) (lines : Array String) (out : IO.FS.Stream) : 
     let mut quiet : Option (Array Nat) := none
     let mut live : Option (Array Nat) := none
     let mut reopen : Option (Array Nat) := none
+    let mut durable : Option (Array Nat) := none
     let mut flushOk := true
+    let mut nfDirty : Nat := 0
+    let mut bnfBad : Nat := 0
+    let mut uncovBad : Nat := 0
     let mut j := i + 1
     while j < lines.size && lines[j]! != "end" do
       let t := (lines[j]!).splitOn " "
@@ -80,9 +84,13 @@ partial def runLin (dir : String) (lines : Array String) (out : IO.FS.Stream) : 
         if kvOf rest "livelock" == "1" then livelock := true
         if kvOf rest "panic" == "1" then panicked := true
       | ["nf", v] => nf := some (v == "1")
+      | ["nfdirty", v] => nfDirty := v.toNat?.getD 0
+      | ["uncov", _, _, c] => if c != "0" then uncovBad := uncovBad + 1
+      | ["bnf", _, v, dc] => if v == "0" && dc != "0" then bnfBad := bnfBad + 1
       | ["quiet", v] => quiet := some (parseRle (v.replace "," " "))
       | ["live", v] => live := some (parseRle (v.replace "," " "))
       | ["reopen", v] => reopen := some (parseRle (v.replace "," " "))
+      | ["durable", v] => durable := some (parseRle (v.replace "," " "))
       | ["flush", v] => flushOk := v == "ok"
       | _ => pure ()
       j := j + 1
@@ -146,6 +154,17 @@ partial def runLin (dir : String) (lines : Array String) (out : IO.FS.Stream) : 
         let first := (List.range (min q.size l.size)).find? (fun k => q[k]! ≠ l[k]!)
         out.putStrLn s!"viol run={run} class=needflush-false-but-file-differs first-sector={first}"
     | _, _, _ => pure ()
+    -- ... and nothing is dirty in the caches or the top tables
+    if (nf == some false && nfDirty > 0) || bnfBad > 0 then
+      out.putStrLn s!"viol run={run} class=needflush-false-but-dirty dirty={nfDirty} batches={bnfBad}"
+    -- C05 under concurrency: what flush_meta + fsync_range guarantee to survive a crash reads like the file
+    match durable, reopen with
+    | some dv, some rv =>
+      if dv != rv then
+        let first := (List.range (min dv.size rv.size)).find? (fun k => dv[k]! ≠ rv[k]!)
+        out.putStrLn s!"viol run={run} class=synced-data-not-durable first-sector={first}"
+    | _, _ => pure ()
+    if uncovBad > 0 then out.putStrLn s!"viol run={run} class=flush-ok-but-unsynced calls={uncovBad}"
     if !flushOk then out.putStrLn s!"viol run={run} class=final-flush-error"
     out.putStrLn s!"lin run={run} tasks={tasks.size} sectors={checked} verdict={if bad == 0 then "ok" else "bad"}"
 
